@@ -1,6 +1,6 @@
 (* Proofs about the client model (Client.v): with redirect following enabled, send ends at the final non-redirect
    response of the chain the origins define, for chains of every length; without it, at the first response. *)
-From Hv Require Import Prelude Bytes TablesHttp TablesClient Http HttpRespSpec HttpRespProofs Client.
+From Hv Require Import Prelude Bytes BytesProofs TablesHttp TablesClient Http HttpRespSpec HttpRespProofs Client.
 From Coq Require Import Lia.
 Open Scope N_scope.
 
@@ -209,3 +209,56 @@ Proof.
   - intros (x & Hin & Hx). apply N.eqb_eq in Hx. subst x. exact Hin.
   - intros Hin. exists (status_code s). split; [exact Hin|apply N.eqb_refl].
 Qed.
+
+(* ---- Client::parse_url and the request builders ---- *)
+Lemma strip_pre_app p r : strip_pre p (p ++ r) = Some r.
+Proof. induction p as [|a p IH]; [reflexivity|]. cbn [app strip_pre]. rewrite N.eqb_refl. exact IH. Qed.
+
+Lemma split_or_at d a b : nob d a = true -> split_or d (a ++ d :: b) = (a, b).
+Proof. intro H. unfold split_or. rewrite (split_once_app d a b H). reflexivity. Qed.
+Lemma split_or_none d l : nob d l = true -> split_or d l = (l, []).
+Proof. intro H. unfold split_or. rewrite (split_once_none d l H). reflexivity. Qed.
+
+Section Urls.
+  Variable resolves : bool -> bytes -> bool.
+
+  (* http://host/path?query decomposes into exactly these parts (host without '/', path without '?'); the query and the
+     path may be empty or absent *)
+  Theorem parse_url_http host path query :
+    nob SLASH host = true -> nob QMARK path = true -> resolves false host = true ->
+    parse_url resolves (S_http ++ host ++ [SLASH] ++ path ++ [QMARK] ++ query) =
+      Some {| u_https := false; u_host := host; u_path := SLASH :: path; u_query := query |} /\
+    parse_url resolves (S_http ++ host ++ [SLASH] ++ path) =
+      Some {| u_https := false; u_host := host; u_path := SLASH :: path; u_query := [] |} /\
+    parse_url resolves (S_http ++ host) =
+      Some {| u_https := false; u_host := host; u_path := [SLASH]; u_query := [] |}.
+  Proof.
+    intros Hh Hp Hr. unfold parse_url. rewrite !strip_pre_app.
+    repeat split.
+    - cbn [app]. rewrite (split_or_at SLASH host (path ++ QMARK :: query) Hh), Hr.
+      rewrite (split_or_at QMARK path query Hp). reflexivity.
+    - cbn [app]. rewrite (split_or_at SLASH host path Hh), Hr. rewrite (split_or_none QMARK path Hp). reflexivity.
+    - rewrite (split_or_none SLASH host Hh), Hr. reflexivity.
+  Qed.
+
+  (* anything that is not http:// or https:// is refused, and so is a host that does not resolve *)
+  Theorem parse_url_rejects s :
+    strip_pre S_http s = None -> strip_pre S_https s = None -> parse_url resolves s = None.
+  Proof. intros H1 H2. unfold parse_url. rewrite H1, H2. reflexivity. Qed.
+
+  (* the builders: GET / DELETE carry no body; POST / PUT carry the data and its length; all of them name the host *)
+  Theorem builders_spec s u m data :
+    parse_url resolves s = Some u ->
+    (exists st, client_nobody resolves m s = Some st /\
+       c_https st = u_https u /\ c_host st = u_host u /\ c_follow st = false /\ c_cookies st = [] /\
+       r_method (c_req st) = m /\ r_uri (c_req st) = u_path u /\ r_query (c_req st) = u_query u /\
+       r_version (c_req st) = V_HTTP11 /\ r_headers (c_req st) = [(HKnown H_Host, u_host u)] /\ r_content (c_req st) = None) /\
+    (exists st, client_body resolves m s data = Some st /\
+       c_https st = u_https u /\ c_host st = u_host u /\ c_follow st = false /\
+       r_method (c_req st) = m /\ r_uri (c_req st) = u_path u /\ r_query (c_req st) = u_query u /\
+       r_headers (c_req st) = [(HKnown H_Host, u_host u); (HKnown H_ContentLength, dec_render (N.of_nat (length data)))] /\
+       r_content (c_req st) = Some data).
+  Proof.
+    intro H. unfold client_nobody, client_body. rewrite H. split; eexists; (split; [reflexivity|]); cbn; repeat split.
+  Qed.
+End Urls.
